@@ -84,11 +84,18 @@ def make_array(ac, n, p, start, seed):
                 for i in range(n)]
         arg = np.array(vals) if ac == "np_str" else (np.array(vals, dtype=object) if ac == "np_obj_str" else vals)
         return arg, ["s:" + v for v in vals], {"object"}, "cooked"
-    if ac in ("np_datetime64_us", "np_datetime64_ns", "list_datetime", "np_obj_datetime"):
+    if ac in ("np_datetime64_us", "np_datetime64_ns", "list_datetime", "np_obj_datetime", "list_datetime64"):
         SECS = [1600000000, -2500000000, 0, 86399, -2082844801]       # two of them lie before 1904
         us = [SECS[(start + i) % 5] * 10 ** 6 + 3600 * 10 ** 6 * i + US[(start + i) % len(US)] for i in range(n)]
         exp = [struct.pack("<q", v).hex() for v in us]
-        if ac == "np_datetime64_us":
+        if ac == "list_datetime64":
+            # NumPy scalars of mixed resolution, the coarsest first (a time axis parsed from text): seconds, then
+            # milliseconds, then microseconds - the microsecond values are the ones that count
+            us = [v - v % 10 ** 6 if i == 0 else (v - v % 1000 if i == 1 else v) for i, v in enumerate(us)]
+            exp = [struct.pack("<q", v).hex() for v in us]
+            arg = [np.datetime64(v // 10 ** 6, "s") if i == 0 else
+                   (np.datetime64(v // 1000, "ms") if i == 1 else np.datetime64(v, "us")) for i, v in enumerate(us)]
+        elif ac == "np_datetime64_us":
             arg = np.array(us, dtype="datetime64[us]")
         elif ac == "np_datetime64_ns":
             arg = np.array([v * 1000 for v in us], dtype="datetime64[ns]")
@@ -172,6 +179,29 @@ def _names(path):
     return [p.strip("'") for p in parts if p]
 
 
+# The specification's names g1, g2, a, b stand for arbitrary strings: some programs are run with awkward ones (empty,
+# a quote, slashes).  Injective per level, so the observed paths translate back one to one.
+# (group names keep their sorting order: the writer declares missing groups in sorted order, `GroupRank' in the spec)
+NAME_VARIANTS = [{}, {"g1": "", "a": ""}, {"g1": "'g", "g2": "g/2'", "b": "/", "a": "'"}]
+
+
+def _concrete_path(names):
+    return "/" + "/".join("'" + n.replace("'", "''") + "'" for n in names)
+
+
+def rename_view(view, inv):
+    """observed view keyed by concrete paths -> keyed by the specification's paths"""
+    if not inv:
+        return view
+    t = lambda p: inv.get(p, p)     # noqa
+    out = dict(view)
+    out["groups"] = [t(g) for g in view["groups"]]
+    out["gchans"] = {t(g): [t(c) for c in cs] for g, cs in view["gchans"].items()}
+    out["chans"] = {t(c): v for c, v in view["chans"].items()}
+    out["props"] = {t(p): v for p, v in view["props"].items()}
+    return out
+
+
 HISTORY_CLASSES = ["list_datetime", "np_obj_str", "np_obj_datetime", "timestamp_array", "list_str", "list_i8",
                    "list_bool", "np_str", "list_float", "np_datetime64_ns", "np_be_int32"]
 
@@ -209,6 +239,10 @@ def run_program(rec, seed, target="stream", index=False, version=4712):
         path = os.path.join(tmp, "f.tdms")
     writer = None
     nwrites = 0
+    nmap = NAME_VARIANTS[(zlib.crc32(repr(prog).encode()) // 17 + seed) % len(NAME_VARIANTS)]
+    inv = {}
+    refused = []       # problems with calls the writer must refuse
+    mutated = []       # channels whose caller-side array was modified by the writer
     try:
         history_writes = process_history(zlib.crc32(repr(prog).encode()) + seed)
         for call in prog:
@@ -234,7 +268,10 @@ def run_program(rec, seed, target="stream", index=False, version=4712):
                         v, canon, mode = make_value(vc, seed + nwrites)
                         props = {nm: v}
                         prop_exp.setdefault(o["p"], {})[nm] = (canon, mode, vc)
-                    nms = _names(o["p"])
+                    nms = [nmap.get(x, x) for x in _names(o["p"])]
+                    inv[_concrete_path(nms) if nms else "/"] = o["p"]
+                    if len(nms) >= 1:
+                        inv[_concrete_path(nms[:1])] = "/'%s'" % _names(o["p"])[0]
                     if len(nms) == 0:
                         objs.append(RootObject(props))
                     elif len(nms) == 1:
@@ -248,7 +285,32 @@ def run_program(rec, seed, target="stream", index=False, version=4712):
                         exp_dtypes[o["p"]] = dts
                         read_mode[o["p"]] = mode
                         objs.append(ChannelObject(nms[0], nms[1], arg, props))
+                hh = zlib.crc32(repr(prog).encode()) + seed + nwrites
+                if hh % 3 == 0:
+                    # a call the writer refuses is not a step of the specification (stuttering): it must raise and leave
+                    # neither bytes nor bookkeeping behind.  Three kinds of refusal, on the objects of the next call.
+                    kind = (hh // 3) % 3
+                    chan = [ob for ob in objs if isinstance(ob, ChannelObject)]
+                    gname = chan[0].group if chan else "g1"
+                    if kind == 0:
+                        bad = objs + [ChannelObject(gname, "refused", np.zeros(1), {"bad": None})]
+                    elif kind == 1:
+                        bad = objs + [ChannelObject(gname, "refused", np.zeros(2, dtype=np.float16))]
+                    else:
+                        bad = objs + [ChannelObject(gname, "refused", np.zeros(1)), ChannelObject(gname, "refused", np.zeros(1))]
+                    before = _size(target, path, buf, writer)
+                    try:
+                        writer.write_segment(bad)
+                        refused.append("accepted:%d" % kind)
+                    except Exception:  # noqa
+                        if _size(target, path, buf, writer) != before:
+                            refused.append("left-bytes:%d" % kind)
+                snaps = [(ob.path, ob.data, ob.data.dtype.str, ob.data.tobytes()) for ob in objs
+                         if isinstance(ob, ChannelObject) and isinstance(ob.data, np.ndarray) and ob.data.dtype.kind != "O"]
                 writer.write_segment(objs)
+                for (pth, arr, dts_, raw_) in snaps:
+                    if arr.dtype.str != dts_ or arr.tobytes() != raw_:
+                        mutated.append(pth)
                 nwrites += 1
         if writer is not None:
             writer.close()
@@ -262,7 +324,16 @@ def run_program(rec, seed, target="stream", index=False, version=4712):
         if tmp:
             shutil.rmtree(tmp, ignore_errors=True)
     return {"data": data, "index": idx, "exp_data": exp_data, "exp_dtypes": exp_dtypes, "read_mode": read_mode,
-            "prop_exp": prop_exp, "nwrites": nwrites, "history_writes": history_writes}
+            "prop_exp": prop_exp, "nwrites": nwrites, "history_writes": history_writes, "refused": refused,
+            "mutated": [inv.get(m, m) for m in mutated], "inv": inv}
+
+
+def _size(target, path, buf, writer=None):
+    if target == "path":
+        if writer is not None and getattr(writer, "_file", None) is not None:
+            writer._file.flush()
+        return os.path.getsize(path)
+    return len(buf.getvalue())
 
 
 def replay_writer_case(case):
@@ -314,7 +385,9 @@ def replay_writer_case(case):
     if impl:
         spec_paths = [[o["p"] for o in seg["objs"]] for seg in rec["emitted"]]
         mine = impl[out.get("history_writes", 0):]      # the hook also logged the process history's writer
-        obs["writer_calls_refined" if [r["paths"] for r in mine] == spec_paths else "writer_calls_not_refined"] = 1
+        inv_ = out.get("inv", {})
+        obs["writer_calls_refined" if [[inv_.get(q, q) for q in r["paths"]] for r in mine] == spec_paths
+            else "writer_calls_not_refined"] = 1
     bundle = {"prog": rec["prog"], "cls": rec["cls"], "seed": seed, "target": target, "version": version,
               "hex": out["data"].hex()}
     try:
@@ -326,6 +399,15 @@ def replay_writer_case(case):
         return {"n": 1, "keys": [h], "fails": fails, "validated": 1}
     view = rec["view"]
     chans = rec["chans"] if isinstance(rec["chans"], dict) else {}
+    cooked, raw = rename_view(cooked, out.get("inv")), rename_view(raw, out.get("inv"))
+    for r_ in out.get("refused", ()):
+        fails.append((sig("refused-call", what=r_.split(":")[0]), dict(bundle, problem=r_)))
+    for p_ in out.get("mutated", ()):
+        fails.append((sig("caller-array-modified", cls=rec["cls"].get(p_)), dict(bundle, channel=p_)))
+    if cooked.get("version") != version or raw.get("version") != version:
+        fails.append((sig("format-version"), dict(bundle, expected=version, observed=cooked.get("version"))))
+    if cooked.get("api") or raw.get("api"):
+        fails.append((sig("container-protocol"), dict(bundle, problems=cooked.get("api") or raw.get("api"))))
     # structure: groups and channels as the specification's view of the emitted segments
     if cooked["groups"] != view["groups"]:
         fails.append((sig("groups"), dict(bundle, expected=view["groups"], observed=cooked["groups"])))
@@ -363,7 +445,7 @@ def replay_writer_case(case):
     for ev in events:
         for ob in ev.get("objs", []):
             for pr in ob["props"]:
-                last_type[(ob["path"], pr["name"])] = pr["type"]
+                last_type[(out.get("inv", {}).get(ob["path"], ob["path"]), pr["name"])] = pr["type"]
     props = rec["props"] if isinstance(rec["props"], dict) else {}
     for p, plist in props.items():
         for pe in plist:
